@@ -330,7 +330,47 @@ func (m *Machine) loadElem(p *ElemPtrV) Val {
 }
 
 func (m *Machine) storeElem(p *ElemPtrV, v Val) {
+	// backing-array aliasing is not modelled. In a function that is only swept for panic-freedom (trusted contract + sweep) a store
+	// through &slice[i] is over-approximated: every live sequence of the same element type may have changed content (lengths are kept).
+	if m.Top != nil && m.Top.C != nil && m.Top.C.Trusted && len(m.Top.C.Sweep) > 0 {
+		sq, ok := p.Seq.(*SeqV)
+		if !ok {
+			panic(unsupported("store through &coins[i]"))
+		}
+		m.E.Assume("A-SLICE-HAVOC", "in functions swept for panic-freedom only, a store through &slice[i] havocs the contents (not the lengths) of every live slice of that element type: an over-approximation of backing-array aliasing")
+		key := typeKey(sq.Elem)
+		hv := func(v Val) Val {
+			if s2, ok := v.(*SeqV); ok && typeKey(s2.Elem) == key {
+				return m.havocSeqContent(s2)
+			}
+			return v
+		}
+		for c, hvv := range m.Heap {
+			m.Heap[c] = hv(hvv)
+			if m.W != nil && m.Heap[c] != hvv {
+				m.W.Cells[c] = true
+			}
+		}
+		for _, fr := range m.Frames {
+			for k, ev := range fr.Env {
+				fr.Env[k] = hv(ev)
+			}
+		}
+		return
+	}
 	panic(unsupported("store through &slice[i] (backing-array aliasing is not modelled)"))
+}
+
+func (m *Machine) havocSeqContent(x *SeqV) *SeqV {
+	src := x
+	if src.Leaves == nil {
+		src = m.concToSym(x)
+	}
+	n := &SeqV{Elem: x.Elem, Len: src.Len, IsNil: x.IsNil}
+	for _, a := range src.Leaves {
+		n.Leaves = append(n.Leaves, m.E.D.Fresh("aliased_arr", a.Sort))
+	}
+	return n
 }
 
 // ---------------- slices of arrays, append, len ----------------
